@@ -6,7 +6,7 @@ occurs for the first time in row i (those at which the repaired `FromStr` consum
 degree), in the same ascending order; orbit numbers of later rows are larger than those of
 earlier rows.
 -/
-import DSymVerif.Proofs.TextWalk
+import DSymVerif.Proofs.TextPeriod
 
 namespace DSymVerif.Text
 open DSymVerif DSymVerif.DS
@@ -48,13 +48,17 @@ structure StepDesc (ds : DSetData) (i d0 : Nat) (st st' : CollectState) : Prop w
     if x ∈ walkList ds i (d0 + 1) (ds.size + 1) (d0 + 1) ∧ x < (st.index.getD i #[]).size then st.rs.size
     else (st.index.getD i #[]).getD x 0
   others : ∀ j, j ≠ i → st'.index.getD j #[] = st.index.getD j #[]
+  rs_get : ∀ k, st'.rs.getD k 0 =
+    if k = st.rs.size then
+      (collectLoop ds i (d0 + 1) st.rs.size (ds.size + 1) (d0 + 1) 0 false (st.index.getD i #[]) st.seen).1
+    else st.rs.getD k 0
 
 theorem innerStep_unseen {ds : DSetData} {i d0 : Nat} {st : CollectState}
     (h : ¬ st.seen.getD (d0 + 1) false = true) (hi : i < st.index.size) :
     StepDesc ds i d0 st (innerStep ds i st d0) := by
   unfold innerStep
   rw [if_neg h]
-  refine ⟨?_, ?_, ?_, ?_⟩
+  refine ⟨?_, ?_, ?_, ?_, ?_⟩
   · dsimp only; rw [Array.size_push]
   · intro x; dsimp only; exact collectLoop_seen_iff ds i _ _ _ _ _ _ _ _ x
   · intro x
@@ -64,6 +68,9 @@ theorem innerStep_unseen {ds : DSetData} {i d0 : Nat} {st : CollectState}
   · intro j hj
     dsimp only
     rw [getD_setG, if_neg (by intro hh; exact hj hh.1.symm)]
+  · intro k
+    dsimp only
+    exact getD_push _ _ _
 
 /-- the step of the fold in `orbit_reps_2d(i, i + 1)` -/
 def repsStep (v : View) (i : Nat) (acc : List Nat × Array Bool) (d0 : Nat) : List Nat × Array Bool :=
@@ -80,7 +87,7 @@ theorem orbitReps2d_eq (v : View) (i : Nat) :
 
 /-! ### the joint invariant of the two folds in round i -/
 
-structure Joint (ds : DSetData) (i N0 : Nat) (idx0 : Array (Array Nat)) (d0 : Nat)
+structure Joint (ds : DSetData) (i N0 : Nat) (idx0 : Array (Array Nat)) (rs0 : Array Nat) (d0 : Nat)
     (acc : List Nat × Array Bool) (st : CollectState) : Prop where
   inner : InnerInv ds i d0 st
   accSize : acc.2.size = ds.size + 1
@@ -93,13 +100,16 @@ structure Joint (ds : DSetData) (i N0 : Nat) (idx0 : Array (Array Nat)) (d0 : Na
   fst : acc.1.reverse = (List.range' 1 d0).filter fun x => firstB (st.index.getD i #[]) x
   N0_le : N0 ≤ st.rs.size
   others : ∀ j, j ≠ i → st.index.getD j #[] = idx0.getD j #[]
+  per : ∀ x, 1 ≤ x → x ≤ ds.size → st.seen.getD x false = true →
+    IsPeriod (stepF ds i) x (st.rs.getD ((st.index.getD i #[]).getD x 0) 0)
+  rs_low : ∀ k, k < N0 → st.rs.getD k 0 = rs0.getD k 0
 
 theorem joint_step {ds : DSetData} (h : ValidSet ds) {i : Nat} (hi : i < ds.dim) (v : View)
     (hvs : v.size = ds.size)
     (hv : ∀ j e, j ≤ ds.dim → 1 ≤ e → e ≤ ds.size → v.op j e = some (ds.opU j e))
-    {N0 : Nat} {idx0 : Array (Array Nat)} {d0 : Nat} (hd0 : d0 < ds.size)
-    {acc : List Nat × Array Bool} {st : CollectState} (J : Joint ds i N0 idx0 d0 acc st) :
-    Joint ds i N0 idx0 (d0 + 1) (repsStep v i acc d0) (innerStep ds i st d0) := by
+    {N0 : Nat} {idx0 : Array (Array Nat)} {rs0 : Array Nat} {d0 : Nat} (hd0 : d0 < ds.size)
+    {acc : List Nat × Array Bool} {st : CollectState} (J : Joint ds i N0 idx0 rs0 d0 acc st) :
+    Joint ds i N0 idx0 rs0 (d0 + 1) (repsStep v i acc d0) (innerStep ds i st d0) := by
   have hinner' := innerStep_inv h hi hd0 J.inner
   have hrange : List.range' 1 (d0 + 1) = List.range' 1 d0 ++ [d0 + 1] := by
     rw [List.range'_concat]; simp [Nat.add_comm]
@@ -180,7 +190,12 @@ theorem joint_step {ds : DSetData} (h : ValidSet ds) {i : Nat} (hi : i < ds.dim)
           · rfl
           · rw [J.ext]; exact hx
         · exact Or.inr hx
-    refine ⟨hinner', ?_, ?_, ?_, ?_, ?_, ?_, ?_, ?_⟩
+    -- the orbit length of the start chamber is what the walk counts
+    obtain ⟨K, hKk, hKp⟩ := exists_firstHit (f := stepF ds i) hk1 hk
+    have hsteps := collectLoop_steps ds i (d0 + 1) st.rs.size (ds.size + 1) (d0 + 1) 0 false
+      (st.index.getD i #[]) st.seen K (by omega) hKp
+    have hWper := walkList_period h hi (d0 + 1) K (ds.size + 1) (d0 + 1) (by omega) (by omega) hKp
+    refine ⟨hinner', ?_, ?_, ?_, ?_, ?_, ?_, ?_, ?_, ?_, ?_⟩
     · rw [e2]; dsimp only; rw [reps2dLoop_size, Array.size_setIfInBounds]; exact J.accSize
     · intro x
       rw [Bool.eq_iff_iff, hR, D.seen_iff]
@@ -239,6 +254,21 @@ theorem joint_step {ds : DSetData} (h : ValidSet ds) {i : Nat} (hi : i < ds.dim)
     · rw [D.rs_size]; have := J.N0_le; omega
     · intro j hj
       rw [D.others j hj]; exact J.others j hj
+    · intro x hx1 hx2 hx
+      rw [D.seen_iff] at hx
+      rw [D.row_eq, D.rs_get]
+      by_cases hc : x ∈ walkList ds i (d0 + 1) (ds.size + 1) (d0 + 1) ∧ x < (st.index.getD i #[]).size
+      · rw [if_pos hc, if_pos rfl, hsteps, Nat.zero_add]
+        exact hWper x hc.1
+      · rw [if_neg hc]
+        rcases hx with hx | ⟨hx, _⟩
+        · have := J.inner.seen_lt x hx1 hx2 hx
+          rw [if_neg (by omega)]
+          exact J.per x hx1 hx2 hx
+        · exact absurd ⟨hx, by omega⟩ hc
+    · intro k hk
+      rw [D.rs_get, if_neg (by have := J.N0_le; omega)]
+      exact J.rs_low k hk
 
 /-! ### the rounds -/
 
@@ -249,6 +279,8 @@ structure RowsDone (ds : DSetData) (v : View) (i : Nat) (st : CollectState) : Pr
     (List.range' 1 ds.size).filter fun x => firstB (st.index.getD j #[]) x
   mono : ∀ j j', j < j' → j' < i → ∀ x y, 1 ≤ x → x ≤ ds.size → 1 ≤ y → y ≤ ds.size →
     (st.index.getD j #[]).getD x 0 < (st.index.getD j' #[]).getD y 0
+  per : ∀ j, j < i → ∀ x, 1 ≤ x → x ≤ ds.size →
+    IsPeriod (stepF ds j) x (st.rs.getD ((st.index.getD j #[]).getD x 0) 0)
 
 theorem rowsDone_step {ds : DSetData} (h : ValidSet ds) {i : Nat} (hi : i < ds.dim) (v : View)
     (hvs : v.size = ds.size)
@@ -258,7 +290,7 @@ theorem rowsDone_step {ds : DSetData} (h : ValidSet ds) {i : Nat} (hi : i < ds.d
   -- run both folds together
   have hJ := foldl_range_inv
     (fun (p : (List Nat × Array Bool) × CollectState) d0 => (repsStep v i p.1 d0, innerStep ds i p.2 d0))
-    (fun d0 p => Joint ds i st.rs.size st.index d0 p.1 p.2) ds.size
+    (fun d0 p => Joint ds i st.rs.size st.index st.rs d0 p.1 p.2) ds.size
     (([], Array.replicate (v.size + 1) false), { st with seen := Array.replicate (ds.size + 1) false })
     (by
       have hrep : ∀ x, (Array.replicate (ds.size + 1) false).getD x false = false := by
@@ -266,13 +298,14 @@ theorem rowsDone_step {ds : DSetData} (h : ValidSet ds) {i : Nat} (hi : i < ds.d
         rw [Array.getD_eq_getD_getElem?, Array.getElem?_replicate]
         split <;> rfl
       refine ⟨⟨⟨R.outer.index_size, R.outer.row_size, R.outer.done, R.outer.rs_pos⟩, by simp, ?_, ?_⟩,
-        by simp [hvs], ?_, ?_, ?_, ?_, by simp, Nat.le_refl _, fun j _ => rfl⟩
+        by simp [hvs], ?_, ?_, ?_, ?_, by simp, Nat.le_refl _, fun j _ => rfl, ?_, fun k _ => rfl⟩
       · intro x _ _ hx; dsimp only at hx; rw [hrep] at hx; cases hx
       · intro x h1 h2; omega
       · intro x; dsimp only; rw [hvs]
       · intro x _ _ hx; dsimp only at hx; rw [hrep] at hx; cases hx
       · intro x _ _ hx; dsimp only at hx; rw [hrep] at hx; cases hx
-      · intro x _ _ _ hx; dsimp only at hx; rw [hrep] at hx; cases hx)
+      · intro x _ _ _ hx; dsimp only at hx; rw [hrep] at hx; cases hx
+      · intro x _ _ hx; dsimp only at hx; rw [hrep] at hx; cases hx)
     (fun k p hk hp => joint_step h hi v hvs hv hk hp)
   -- split the paired fold into its two components
   have hpair : ∀ (l : List Nat) (a : List Nat × Array Bool) (s : CollectState),
@@ -290,7 +323,7 @@ theorem rowsDone_step {ds : DSetData} (h : ValidSet ds) {i : Nat} (hi : i < ds.d
     rw [orbitReps2d_eq, hvs]
     rw [hvs] at hJ
     exact hJ.fst
-  refine ⟨hout, ?_, ?_⟩
+  refine ⟨hout, ?_, ?_, ?_⟩
   · intro j hj
     by_cases c : j = i
     · subst c; exact hrepsi
@@ -308,6 +341,16 @@ theorem rowsDone_step {ds : DSetData} (h : ValidSet ds) {i : Nat} (hi : i < ds.d
       have e2 : (outerStep ds st i).index.getD j' #[] = st.index.getD j' #[] := hJ.others j' c
       rw [e1, e2]
       exact R.mono j j' hjj (by omega) x y hx1 hx2 hy1 hy2
+  · intro j hj x hx1 hx2
+    by_cases c : j = i
+    · subst c
+      exact hJ.per x hx1 hx2 (hJ.inner.seen_low x hx1 hx2)
+    · have e1 : (outerStep ds st i).index.getD j #[] = st.index.getD j #[] := hJ.others j c
+      have hlt := R.outer.done j x (by omega) hx1 hx2
+      have e2 : (outerStep ds st i).rs.getD ((st.index.getD j #[]).getD x 0) 0 =
+          st.rs.getD ((st.index.getD j #[]).getD x 0) 0 := hJ.rs_low _ hlt
+      rw [e1, e2]
+      exact R.per j (by omega) x hx1 hx2
 
 /-- the numbering facts about the result of `collect_orbits` -/
 structure Numbering (ds : DSetData) (v : View) (o : Orbits) : Prop where
@@ -315,6 +358,8 @@ structure Numbering (ds : DSetData) (v : View) (o : Orbits) : Prop where
     (List.range' 1 ds.size).filter fun x => firstB (o.index.getD i #[]) x
   mono : ∀ j i, j < i → i < ds.dim → ∀ x y, 1 ≤ x → x ≤ ds.size → 1 ≤ y → y ≤ ds.size →
     (o.index.getD j #[]).getD x 0 < (o.index.getD i #[]).getD y 0
+  per : ∀ i, i < ds.dim → ∀ x, 1 ≤ x → x ≤ ds.size →
+    IsPeriod (stepF ds i) x (o.rs.getD ((o.index.getD i #[]).getD x 0) 0)
 
 theorem collectOrbits_numbering {ds : DSetData} (h : ValidSet ds) (v : View) (hvs : v.size = ds.size)
     (hv : ∀ j e, j ≤ ds.dim → 1 ≤ e → e ≤ ds.size → v.op j e = some (ds.opU j e)) :
@@ -327,8 +372,8 @@ theorem collectOrbits_numbering {ds : DSetData} (h : ValidSet ds) (v : View) (hv
          simp [collectInit, Array.getD_eq_getD_getElem?, hj]
        done := by intro j d hj; omega
        rs_pos := by intro k hk; simp [collectInit] at hk },
-     by intro j hj; omega, by intro j j' _ hj'; omega⟩
+     by intro j hj; omega, by intro j j' _ hj'; omega, by intro j hj; omega⟩
     (fun k s hk hp => rowsDone_step h hk v hvs hv hp)
-  exact ⟨fun i hi => hfin.reps i hi, fun j i hji hi => hfin.mono j i hji hi⟩
+  exact ⟨fun i hi => hfin.reps i hi, fun j i hji hi => hfin.mono j i hji hi, fun i hi => hfin.per i hi⟩
 
 end DSymVerif.Text
